@@ -80,11 +80,21 @@ CLAIMS = {
   "note": "NOT decided: the sort order itself, null placement, disjunctness tests (values).",
   "technique": "parameter-to-argument provenance (root of operand after copies/refs/Option re-wraps), control-region operand analysis",
  },
+ "C02": {
+  "text": "Narrow: decides four protocol clauses named by the anchors. Opstamps come from exactly one atomic fetch_add per call (no load/store pair), only revert stores and only delete_all_documents calls it, the stamper is seeded from meta.json; prepare_commit closes the channel, joins every worker propagating both error layers, and stamps the commit only after the join loop; in the commit task purge_deletes, save_metas and the returned value use the same captured opstamp, the purged entries are what SegmentManager::commit installs, save_metas writes its own opstamp/payload over the committed register; run() draws all opstamps of a batch with one stamps() call and sends one batch; add_document/delete_query return the opstamp they stamped.",
+  "note": "NOT decided: which documents survive a history (delete cursor arithmetic, opstamp comparisons, rollback content, delete-all): values over histories and schedules.",
+  "technique": "callee-set rules, captured-variable identity, parameter provenance, loop-completion dominance over MIR",
+ },
+ "C12": {
+  "text": "Narrow: decides layering and shared arithmetic. Bm25Weight is built only by Query::weight-level functions without a SegmentReader in scope, from a Bm25StatisticsProvider whose Searcher impl loops over all segment readers for tokens, docs and doc_freq; Bm25Weight::explain's returned value is Bm25Weight::score of its own parameters; TermScorer::score and ::explain feed the same fieldnorm_id()/term_freq(); each of the 13 impl Weight::explain is classified (value from a scorer seeked to the doc, a child explanation, or a constant) and a Scorer::score() read must follow the seek; the quantisation table is monotone.",
+  "note": "NOT decided: the numeric value of any score; float rounding; the PhrasePrefixQuery statistics-provider deviation (observation only).",
+  "technique": "who-may-call with signature scan, parameter provenance, value back-trace, impl-map classification",
+ },
 }
 NA = {
  "C13": "quantifies over values returned by arbitrary advance/seek programs on stateful iterators; failures are arithmetic; the only structural statement (wrapper forwarding) is not a necessary condition, so no sound static rule is in reach",
  "C14": "aggregation results are run-time numeric values (bucket arithmetic, float sums, sketches); structural parts are already enforced by derive and the compiler",
 }
 # properties not yet claimed (checks under construction) are listed as not applicable *for now*
-for _p, _why in {'C02': 'check under construction in this session (rules designed in DESIGN.md section 4; not yet registered)', 'C12': 'check under construction in this session (rules designed in DESIGN.md section 4; not yet registered)', }.items():
+for _p, _why in {}.items():
     NA[_p] = _why
